@@ -17,41 +17,23 @@ Lemma rule_cases ru : In ru lexer_rules ->
   \/ ru = rule_at 6 \/ ru = rule_at 7 \/ ru = rule_at 8 \/ ru = rule_at 9.
 Proof. rewrite lexer_rules_split. cbn [In]. intuition. Qed.
 
-Lemma kinds_at : map (fun i => r_kind (rule_at i)) (seq 0 10)
-  = [LPAREN; RPAREN; AND; OR; COMPARATOR; STRING; PROPERTY; TEXT; WS; ERROR].
-Proof. reflexivity. Qed.
-
-Lemma kind_at i k : nth_error [LPAREN; RPAREN; AND; OR; COMPARATOR; STRING; PROPERTY; TEXT; WS; ERROR] i = Some k ->
-  i < 10 -> r_kind (rule_at i) = k.
-Proof.
-  intros H Hi. rewrite <- kinds_at in H.
-  do 10 (destruct i as [|i]; [cbn in H; inversion H; reflexivity|]). lia.
-Qed.
-
-Lemma rule_of_kind ru k i : In ru lexer_rules -> r_kind ru = k ->
-  nth_error [LPAREN; RPAREN; AND; OR; COMPARATOR; STRING; PROPERTY; TEXT; WS; ERROR] i = Some k ->
-  (forall j, j < 10 -> nth_error [LPAREN; RPAREN; AND; OR; COMPARATOR; STRING; PROPERTY; TEXT; WS; ERROR] j = Some k -> j = i) ->
-  ru = rule_at i.
-Proof.
-  intros Hin Hk Hi Huniq.
-  destruct (rule_cases ru Hin) as [E|[E|[E|[E|[E|[E|[E|[E|[E|E]]]]]]]]]; subst ru;
-    match goal with |- rule_at ?j = _ =>
-      assert (Hj : nth_error [LPAREN; RPAREN; AND; OR; COMPARATOR; STRING; PROPERTY; TEXT; WS; ERROR] j = Some k)
-        by (rewrite <- Hk; symmetry; cbn [nth_error]; f_equal; symmetry; apply (kind_at j); [reflexivity|lia]);
-      rewrite (Huniq j ltac:(lia) Hj); reflexivity
-    end.
-Qed.
+Ltac kind_clash K :=
+  exfalso;
+  match type of K with
+  | r_kind (rule_at ?j) = _ =>
+      let k := eval vm_compute in (r_kind (rule_at j)) in change (r_kind (rule_at j)) with k in K
+  end; discriminate.
 
 Lemma property_rule ru : In ru lexer_rules -> r_kind ru = PROPERTY -> ru = rule_at 6.
 Proof.
-  intros H K. apply (rule_of_kind ru PROPERTY 6 H K eq_refl).
-  intros j Hj E. do 10 (destruct j as [|j]; [cbn in E; try discriminate; reflexivity|]). lia.
+  intros H K. destruct (rule_cases ru H) as [E|[E|[E|[E|[E|[E|[E|[E|[E|E]]]]]]]]]; subst ru;
+    first [reflexivity | kind_clash K].
 Qed.
 
 Lemma comparator_rule ru : In ru lexer_rules -> r_kind ru = COMPARATOR -> ru = rule_at 4.
 Proof.
-  intros H K. apply (rule_of_kind ru COMPARATOR 4 H K eq_refl).
-  intros j Hj E. do 10 (destruct j as [|j]; [cbn in E; try discriminate; reflexivity|]). lia.
+  intros H K. destruct (rule_cases ru H) as [E|[E|[E|[E|[E|[E|[E|[E|[E|E]]]]]]]]]; subst ru;
+    first [reflexivity | kind_clash K].
 Qed.
 
 (* ---- the language of PROPERTY ------------------------------------------------------------------------------------ *)
@@ -126,3 +108,151 @@ Lemma comp_texts_facts :
                        | o => forallb (fun c => (c <? 128)%N) (oper_text o) && text_eqb (map ascii_lower (oper_text o)) (oper_text o)
                        end) comp_texts = true.
 Proof. vm_compute. reflexivity. Qed.
+
+(* ---- strconv.Unquote returns valid code points on valid input ---------------------------------------------------- *)
+
+Lemma small_valid v : (v <? 128)%N = true -> valid_cp v = true.
+Proof.
+  intros H. apply N.ltb_lt in H. unfold valid_cp. apply andb_true_intro. split.
+  - apply N.ltb_lt. lia.
+  - apply negb_true_iff. apply andb_false_iff. left. apply N.leb_gt. lia.
+Qed.
+
+Lemma read_hex_tail : forall n v s v' t, read_hex n v s = Some (v', t) -> valid_codepoints s -> valid_codepoints t.
+Proof.
+  induction n as [|n IH]; intros v s v' t H Hs; cbn [read_hex] in H.
+  - inversion H; subst. exact Hs.
+  - destruct s as [|c s']; [discriminate|]. destruct (unhex c); [|discriminate].
+    inversion Hs; subst. eapply IH; eauto.
+Qed.
+
+Lemma unquote_char_valid s v mb t : valid_codepoints s -> unquote_char s = UC v mb t ->
+  valid_codepoints t /\ (((v <? 128)%N || mb) = true -> valid_cp v = true).
+Proof.
+  intros Hs H. unfold unquote_char in H.
+  destruct s as [|c s1]; [discriminate|]. inversion Hs as [|? ? Hc Hs1]; subst.
+  destruct (N.eqb c 34); [discriminate|].
+  destruct (N.leb 128 c) eqn:E128.
+  { inversion H; subst. split; [exact Hs1|intros _; exact Hc]. }
+  destruct (negb (N.eqb c 92)) eqn:E92.
+  { inversion H; subst. split; [exact Hs1|]. intros _. apply small_valid. apply N.ltb_lt. apply N.leb_gt in E128. exact E128. }
+  destruct s1 as [|e0 s2]; [discriminate|]. inversion Hs1 as [|? ? He Hs2]; subst.
+  repeat match type of H with
+         | (if ?b then _ else _) = _ => destruct b eqn:?; [try (inversion H; subst; split; [exact Hs2|intros _; reflexivity])|]
+         end.
+  - (* \x *)
+    destruct (read_hex 2 0 s2) as [[v0 t0]|] eqn:R; [|discriminate]. inversion H; subst.
+    split; [eapply read_hex_tail; eauto|]. intros Hv. rewrite orb_false_r in Hv. apply small_valid. exact Hv.
+  - destruct (read_hex 4 0 s2) as [[v0 t0]|] eqn:R; [|discriminate].
+    destruct (valid_cp v0) eqn:V; [|discriminate]. inversion H; subst.
+    split; [eapply read_hex_tail; eauto|intros _; exact V].
+  - destruct (read_hex 8 0 s2) as [[v0 t0]|] eqn:R; [|discriminate].
+    destruct (valid_cp v0) eqn:V; [|discriminate]. inversion H; subst.
+    split; [eapply read_hex_tail; eauto|intros _; exact V].
+  - destruct (octdig e0) as [d0|].
+    + destruct s2 as [|c1 [|c2 t0]]; try discriminate.
+      destruct (octdig c1); [|discriminate]. destruct (octdig c2); [|discriminate].
+      match type of H with (if ?b then _ else _) = _ => destruct b; [discriminate|] end.
+      inversion H; subst. inversion Hs2 as [|? ? _ Hs3]; subst. inversion Hs3; subst.
+      split; [assumption|]. intros Hv. rewrite orb_false_r in Hv. apply small_valid. exact Hv.
+    + repeat match type of H with
+             | (if ?b then _ else _) = _ => destruct b eqn:?; [inversion H; subst; split; [exact Hs2|intros _; reflexivity]|]
+             end.
+      discriminate.
+Qed.
+
+Lemma unquote_loop_valid : forall f inp acc raw r, valid_codepoints inp -> valid_codepoints acc ->
+  unquote_loop f inp acc raw = UOk r -> valid_codepoints r.
+Proof.
+  induction f as [|f IH]; intros inp acc raw r Hi Ha H; [discriminate|].
+  cbn [unquote_loop] in H. destruct inp as [|c rest]; [discriminate|].
+  destruct (N.eqb c 34).
+  { destruct rest; [|discriminate]. destruct raw; [discriminate|]. inversion H; subst.
+    unfold valid_codepoints. apply Forall_rev. exact Ha. }
+  destruct (N.eqb c 10); [discriminate|].
+  destruct (unquote_char (c :: rest)) as [v mb tail|] eqn:U; [|discriminate].
+  destruct (unquote_char_valid _ _ _ _ Hi U) as [Ht Hv].
+  destruct ((v <? 128)%N || mb) eqn:E.
+  - eapply IH; [exact Ht| |exact H]. constructor; [apply Hv; reflexivity|exact Ha].
+  - eapply IH; [exact Ht|exact Ha|exact H].
+Qed.
+
+Lemma unquote_valid s r : valid_codepoints s -> unquote s = UOk r -> valid_codepoints r.
+Proof.
+  intros Hs H. unfold unquote in H. destruct s as [|q [|x rest]]; try discriminate.
+  destruct (N.eqb q 34).
+  - inversion Hs; subst. eapply unquote_loop_valid; [eassumption|constructor|exact H].
+  - destruct ((N.eqb q 39) || (N.eqb q 96)); discriminate.
+Qed.
+
+(* ---- the tokens inside a parse tree come from the token list ------------------------------------------------------ *)
+
+Inductive ast_from (ts : list token) : ast -> Prop :=
+| af_cond : forall pr c lit, In (PROPERTY, pr) ts -> In (COMPARATOR, c) ts -> In lit ts ->
+    ast_from ts (ACond pr c lit)
+| af_impl : forall lit, In lit ts -> ast_from ts (AImplicit lit)
+| af_bin : forall b l r, ast_from ts l -> ast_from ts r -> ast_from ts (ABin b l r).
+
+Lemma tkind_eqb_true a b : tkind_eqb a b = true -> a = b.
+Proof. destruct a, b; simpl; congruence. Qed.
+
+Lemma parse_from : forall f big,
+  (forall p ts a r, incl ts big -> parse_expr f p ts = POk a r -> ast_from big a /\ incl r ts)
+  /\ (forall p l ts a r, incl ts big -> ast_from big l -> parse_loop f p l ts = POk a r -> ast_from big a /\ incl r ts).
+Proof.
+  induction f as [|f IH]; intros big; [split; intros; discriminate|].
+  destruct (IH big) as [IHe IHl].
+  assert (Hprim : forall ts a r, incl ts big -> primary f ts = POk a r -> ast_from big a /\ incl r ts).
+  { intros ts a r Hi H. unfold primary in H. destruct ts as [|[k t] r0]; [discriminate|].
+    assert (Hr0 : incl r0 ((k, t) :: r0)) by (intros x Hx; right; exact Hx).
+    destruct (tkind_eqb k LPAREN) eqn:E1.
+    - destruct (parse_expr f 0 r0) as [| |e [|[k2 t2] r2]] eqn:E; try discriminate.
+      destruct (tkind_eqb k2 RPAREN); [|discriminate]. inversion H; subst.
+      destruct (IHe 0 r0 a _ (fun x Hx => Hi x (Hr0 x Hx)) E) as [A B]. split; [exact A|].
+      intros x Hx. right. apply B. right. exact Hx.
+    - destruct (tkind_eqb k PROPERTY) eqn:E2.
+      + apply tkind_eqb_true in E2. subst k.
+        destruct r0 as [|[k2 t2] r2].
+        * inversion H; subst. split; [constructor; apply Hi; left; reflexivity|exact Hr0].
+        * destruct (tkind_eqb k2 COMPARATOR) eqn:E3.
+          -- apply tkind_eqb_true in E3. subst k2.
+             destruct r2 as [|[k3 t3] r3]; [discriminate|]. destruct (is_lit k3); [|discriminate].
+             inversion H; subst. split.
+             ++ constructor; apply Hi; cbn [In]; tauto.
+             ++ intros x Hx. cbn [In]. tauto.
+          -- inversion H; subst. split; [constructor; apply Hi; left; reflexivity|exact Hr0].
+      + destruct (is_lit k); [|discriminate]. inversion H; subst.
+        split; [constructor; apply Hi; left; reflexivity|exact Hr0]. }
+  split.
+  - intros p ts a r Hi H. rewrite parse_expr_S in H.
+    destruct (primary f ts) as [| |e r0] eqn:E; try discriminate.
+    destruct (Hprim ts e r0 Hi E) as [A B].
+    destruct (IHl p e r0 a r (fun x Hx => Hi x (B x Hx)) A H) as [C D]. split; [exact C|].
+    intros x Hx. apply B. apply D. exact Hx.
+  - intros p l ts a r Hi Hl H. rewrite parse_loop_S in H.
+    destruct ts as [|[k t] r0]; [inversion H; subst; split; [exact Hl|intros x []]|].
+    assert (Hr0 : incl r0 ((k, t) :: r0)) by (intros x Hx; right; exact Hx).
+    assert (Hstop : POk l ((k, t) :: r0) = POk a r -> ast_from big a /\ incl r ((k, t) :: r0)).
+    { intros E. inversion E; subst. split; [exact Hl|intros x Hx; exact Hx]. }
+    assert (Hstep : forall pp b tt, incl tt ((k, t) :: r0) ->
+              match parse_expr f pp tt with POk e r2 => parse_loop f p (ABin b l e) r2 | other => other end = POk a r ->
+              ast_from big a /\ incl r ((k, t) :: r0)).
+    { intros pp b tt Htt H'. destruct (parse_expr f pp tt) as [| |e r2] eqn:E; try discriminate.
+      destruct (IHe pp tt e r2 (fun x Hx => Hi x (Htt x Hx)) E) as [A B].
+      destruct (IHl p (ABin b l e) r2 a r (fun x Hx => Hi x (Htt x (B x Hx))) (af_bin big b l e Hl A) H') as [C D].
+      split; [exact C|]. intros x Hx. apply Htt. apply B. apply D. exact Hx. }
+    destruct (tkind_eqb k AND).
+    { destruct (Nat.leb p prec_and); [eapply Hstep; [exact Hr0|exact H]|apply Hstop; exact H]. }
+    destruct (tkind_eqb k OR).
+    { destruct (Nat.leb p prec_or); [eapply Hstep; [exact Hr0|exact H]|apply Hstop; exact H]. }
+    destruct (starts_primary k); [|apply Hstop; exact H].
+    destruct (Nat.leb p prec_juxt); [eapply Hstep; [intros x Hx; exact Hx|exact H]|apply Hstop; exact H].
+Qed.
+
+Lemma parse_tokens_from ts a r : parse_tokens ts = POk a r -> ast_from ts a.
+Proof.
+  unfold parse_tokens. intros H.
+  destruct (parse_expr (4 * length ts + 4) 0 ts) as [| |e [|x r0]] eqn:E; try discriminate.
+  inversion H; subst. destruct (parse_from (4 * length ts + 4) ts) as [He _].
+  destruct (He 0 ts a [] (fun x Hx => Hx) E) as [A _]. exact A.
+Qed.
